@@ -67,6 +67,10 @@ def main():
         sh(["git", "-C", "/repo", "worktree", "remove", "--force", wt])
         sh(["rm", "-rf", wt])
     print(json.dumps(out))
+    try:
+        json.dump(out, open(os.path.join(sdir, "check_result.json"), "w"), indent=1)
+    except Exception:
+        pass
     return 0
 
 
